@@ -25,6 +25,10 @@ Definition acct_eqb (a b : acct) : bool :=
   | _, _ => false
   end.
 
+Definition is_escrow (a : acct) : bool := match a with Escrow _ _ => true | _ => false end.
+(* accounts outside the custody accounts of the order / request / farming flows *)
+Definition is_outside (a : acct) : bool := match a with User _ | Reserve _ _ | Dust _ => true | _ => false end.
+
 Definition ledger := acct -> Z -> Z.                 (* account -> denom -> amount *)
 Definition ladd (l : ledger) (a : acct) (d x : Z) : ledger :=
   fun a' d' => if acct_eqb a a' && (d =? d') then l a' d' + x else l a' d'.
@@ -101,8 +105,10 @@ Record pool := mkPool {
   pl_app : Z; pl_id : Z; pl_pair : Z; pl_ranged : bool; pl_disabled : bool; pl_last_dep : Z; pl_last_wd : Z }.
 
 (* request status: 1 NotExecuted 2 Succeeded 3 Failed *)
+(* [d_x] of denom [d_xd] (the pair's quote coin) and [d_y] of denom [d_yd] (base coin) = msg.DepositCoins *)
 Record depreq := mkDep {
-  d_app : Z; d_pool : Z; d_id : Z; d_owner : Z; d_x : Z; d_y : Z; d_ax : Z; d_ay : Z; d_pc : Z; d_status : Z }.
+  d_app : Z; d_pool : Z; d_id : Z; d_owner : Z; d_x : Z; d_y : Z; d_xd : Z; d_yd : Z;
+  d_ax : Z; d_ay : Z; d_pc : Z; d_status : Z }.
 Record wdreq := mkWd {
   w_app : Z; w_pool : Z; w_id : Z; w_owner : Z; w_pc : Z; w_x : Z; w_y : Z; w_status : Z }.
 Record qfarmer := mkQF { q_app : Z; q_pool : Z; q_owner : Z; q_coins : list (Z * Z) }.  (* amount, created-at *)
@@ -114,7 +120,7 @@ Record state := mkState {
   orders : list entry; mmidx : list mmindex;
   pools : list pool; last_pool : list (Z * Z);
   deps : list depreq; wds : list wdreq; qfs : list qfarmer; afs : list afarmer;
-  led : ledger; sup : Z -> Z;
+  led : ledger; sup : Z -> Z -> Z;                    (* supply of the pool coin of pool (app, id) *)
   (* ghost: what each pair escrow owes to its live orders (remaining offer + unreleased fee
      reserve), and the net of the recorded fills that went through it *)
   owed : Z -> Z -> Z -> Z; surplus : Z -> Z -> Z -> Z;
@@ -122,7 +128,7 @@ Record state := mkState {
   ge_owed : Z -> Z; farmed : Z -> Z }.
 
 Definition init : state :=
-  mkState [] [] [] [] [] [] [] [] [] [] [] [] (fun _ _ => 0) (fun _ => 0) (fun _ _ _ => 0) (fun _ _ _ => 0) (fun _ => 0) (fun _ => 0).
+  mkState [] [] [] [] [] [] [] [] [] [] [] [] (fun _ _ => 0) (fun _ _ => 0) (fun _ _ _ => 0) (fun _ _ _ => 0) (fun _ => 0) (fun _ => 0).
 
 Definition set_apps (s : state) v := mkState v (assets s) (pairs s) (last_pair s) (orders s) (mmidx s) (pools s) (last_pool s) (deps s) (wds s) (qfs s) (afs s) (led s) (sup s) (owed s) (surplus s) (ge_owed s) (farmed s).
 Definition set_assets (s : state) v := mkState (apps s) v (pairs s) (last_pair s) (orders s) (mmidx s) (pools s) (last_pool s) (deps s) (wds s) (qfs s) (afs s) (led s) (sup s) (owed s) (surplus s) (ge_owed s) (farmed s).
@@ -146,12 +152,23 @@ Definition set_farmed (s : state) v := mkState (apps s) (assets s) (pairs s) (la
 Definition fadd3 (f : Z -> Z -> Z -> Z) (a p d x : Z) : Z -> Z -> Z -> Z :=
   fun a' p' d' => if (a =? a') && (p =? p') && (d =? d') then f a' p' d' + x else f a' p' d'.
 Definition fadd1 (f : Z -> Z) (d x : Z) : Z -> Z := fun d' => if d =? d' then f d' + x else f d'.
+Definition fadd2 (f : Z -> Z -> Z) (a p x : Z) : Z -> Z -> Z :=
+  fun a' p' => if (a =? a') && (p =? p') then f a' p' + x else f a' p'.
 
 (* a bank transfer on the state; [osend] = out of a pair escrow with the owed/surplus ghosts *)
 Definition ssend (s : state) (from to : acct) (d x : Z) : outcome state :=
   match send (led s) from to d x with Ok l => Ok (set_led s l) | Err c => Err c | Panic => Panic end.
 
 Notation "'do' x <- e ; f" := (obind e (fun x => f)) (at level 200, x name, e at level 100, f at level 200).
+
+(* coins that enter / leave a pair escrow outside order placement and termination (fill proceeds,
+   pool order legs, dust), with the ghost of the net recorded fills *)
+Definition esc_in (s : state) (app pair : Z) (from : acct) (d x : Z) : outcome state :=
+  do s' <- ssend s from (Escrow app pair) d x;
+  Ok (set_surplus s' (fadd3 (surplus s') app pair d x)).
+Definition esc_out (s : state) (app pair : Z) (to : acct) (d x : Z) : outcome state :=
+  do s' <- ssend s (Escrow app pair) to d x;
+  Ok (set_surplus s' (fadd3 (surplus s') app pair d (- x))).
 
 (* ------------------------------------------------------------------------------------------ *)
 (* small keyed stores (association lists; the KV store iterates in ascending key order)          *)
@@ -409,19 +426,20 @@ Fixpoint find_mm (app owner pair : Z) (l : list mmindex) : option mmindex :=
 Definition del_mm (app owner pair : Z) (l : list mmindex) : list mmindex :=
   filter (fun x => negb ((mi_app x =? app) && (mi_owner x =? owner) && (mi_pair x =? pair))) l.
 
-(* cancelMMOrder (swap.go:555-579) WITH THE ARGUMENT ORDER OF THE CODE: GetOrder(ctx, pair.Id, appID, id)
-   although the signature is GetOrder(ctx, appID, pairID, id) *)
+(* cancelMMOrder (swap.go:555-579).  Since the fix of C07-F1 the lookup is GetOrder(ctx, appID, pair.Id, id)
+   (before: GetOrder(ctx, pair.Id, appID, id), which found nothing whenever app id <> pair id) *)
+Definition drop_mm (s : state) (app owner pair : Z) : state := set_mmidx s (del_mm app owner pair (mmidx s)).
 Definition cancel_mm_inner (s : state) (app owner : Z) (pr : pair) (skip : bool) : outcome state :=
   match find_mm app owner (p_id pr) (mmidx s) with
   | Some ix =>
     do s' <- fold_m (fun s id =>
-               match find_order (p_id pr, app, id) (orders s) with       (* <- swapped arguments *)
+               match find_order (app, p_id pr, id) (orders s) with
                | None => Ok s
                | Some e =>
                  if o_batch (fst e) =? p_batch pr then Err 12
                  else if is_live (o_status (fst e)) then finish_entry s e 5 else Ok s
                end) (mi_ids ix) s;
-    Ok (set_mmidx s' (del_mm app owner (p_id pr) (mmidx s')))
+    Ok (drop_mm s' app owner (p_id pr))
   | None => if skip then Ok s else Err 3
   end.
 
@@ -490,6 +508,21 @@ Fixpoint mm_place (app owner now life : Z) (pr : pair) (buy : bool) (ticks : lis
     (st', id' :: ids, last)
   end.
 
+(* the part of MMOrder after the cancellation of the previous orders: escrow the offer coins, store
+   the new orders, write the pair back (the value read BEFORE the cancellations), replace the index *)
+Definition mm_tail (s1 : state) (m : mm_msg) (pr : pair) (bt st : list (Z * Z * Z)) (now : Z) : outcome state :=
+  let oq := sum_offer bt in
+  let ob := sum_offer st in
+  do s2 <- ssend s1 (User (mm_owner m)) (Escrow (mm_app m) (p_id pr)) (p_base pr) ob;
+  do s3 <- ssend s2 (User (mm_owner m)) (Escrow (mm_app m) (p_id pr)) (p_quote pr) oq;
+  let '(st1, ids1, last1) := mm_place (mm_app m) (mm_owner m) now (mm_life m) pr true bt (p_last_order pr) (orders s3) in
+  let '(st2, ids2, last2) := mm_place (mm_app m) (mm_owner m) now (mm_life m) pr false st last1 st1 in
+  let pr' := mkPair (p_app pr) (p_id pr) (p_base pr) (p_quote pr) last2 (p_last_price pr) (p_batch pr) in
+  let s4 := set_pairs (set_orders s3 st2) (ins_pair pr' (pairs s3)) in
+  let s5 := set_owed s4 (fadd3 (fadd3 (owed s4) (mm_app m) (p_id pr) (p_base pr) ob) (mm_app m) (p_id pr) (p_quote pr) oq) in
+  Ok (set_mmidx s5 (mkMM (mm_app m) (mm_owner m) (p_id pr) (ids1 ++ ids2)
+                    :: del_mm (mm_app m) (mm_owner m) (p_id pr) (mmidx s5))).
+
 Definition mm_order (s : state) (m : mm_msg) (now : Z) : outcome state :=
   if negb (vb_mm m) then Err 9 else
   match get_params s (mm_app m) with
@@ -521,16 +554,7 @@ Definition mm_order (s : state) (m : mm_msg) (now : Z) : outcome state :=
           else if mm_life m >? pr_max_life P then Err 2
           else
             do s1 <- cancel_mm_inner s (mm_app m) (mm_owner m) pr true;
-            do s2 <- ssend s1 (User (mm_owner m)) (Escrow (mm_app m) (p_id pr)) (p_base pr) ob;
-            do s3 <- ssend s2 (User (mm_owner m)) (Escrow (mm_app m) (p_id pr)) (p_quote pr) oq;
-            let '(st1, ids1, last1) := mm_place (mm_app m) (mm_owner m) now (mm_life m) pr true bt (p_last_order pr) (orders s3) in
-            let '(st2, ids2, last2) := mm_place (mm_app m) (mm_owner m) now (mm_life m) pr false st last1 st1 in
-            (* SetPair(pair) writes back the pair value read before the cancellations *)
-            let pr' := mkPair (p_app pr) (p_id pr) (p_base pr) (p_quote pr) last2 (p_last_price pr) (p_batch pr) in
-            let s4 := set_pairs (set_orders s3 st2) (ins_pair pr' (pairs s3)) in
-            let s5 := set_owed s4 (fadd3 (fadd3 (owed s4) (mm_app m) (p_id pr) (p_base pr) ob) (mm_app m) (p_id pr) (p_quote pr) oq) in
-            Ok (set_mmidx s5 (mkMM (mm_app m) (mm_owner m) (p_id pr) (ids1 ++ ids2)
-                              :: del_mm (mm_app m) (mm_owner m) (p_id pr) (mmidx s5)))
+            mm_tail s1 m pr bt st now
         | _, _ => Panic
         end
     end
@@ -549,6 +573,17 @@ Definition set_fill (o : order) (matched paid recv : Z) (st : Z) : order :=
           (o_offer o) (o_rem o - paid) (o_recv o + recv) (o_price o) (o_amt o) (o_open o - matched)
           (o_batch o) (o_expire o) st.
 
+Definition fill_ghost (g : ghost) (matched paid recv : Z) : ghost :=
+  mkGhost (g_taken g) (g_ret_offer g) (g_ret_fee g) (g_recv g + recv) (g_fee_fwd g) ((matched, paid, recv) :: g_fills g).
+(* the bookkeeping of one fill on the stored record; the paid offer coin stays in the escrow: it
+   moves from "owed to the order" to "net of the recorded fills" *)
+Definition fill_book (s : state) (k : key3) (o : order) (g : ghost) (matched paid recv : Z) : state :=
+  let '(app, pair, _) := k in
+  let s1 := set_orders s (upd_order k (fun _ => (set_fill o matched paid recv (o_status o), fill_ghost g matched paid recv)) (orders s)) in
+  set_surplus (set_owed s1 (fadd3 (owed s1) app pair (o_odenom o) (- paid))) (fadd3 (surplus s1) app pair (o_odenom o) paid).
+Definition mark_status (s : state) (k : key3) (o : order) (g : ghost) (st : Z) : state :=
+  set_orders s (upd_order k (fun _ => (set_status o st, g)) (orders s)).
+
 (* ApplyMatchResult, the UserOrder case for one matched order *)
 Definition apply_fill (s : state) (app pair : Z) (f : Z * Z * Z * Z) : outcome state :=
   let '(id, matched, paid, recv) := f in
@@ -559,14 +594,11 @@ Definition apply_fill (s : state) (app pair : Z) (f : Z * Z * Z * Z) : outcome s
     else if (o_rem o - paid <? 0) || (paid <? 0) || (recv <? 0) then Panic      (* Coin.Sub / NewCoin negative *)
     else
       let o1 := set_fill o matched paid recv (o_status o) in
-      let g1 := mkGhost (g_taken g) (g_ret_offer g) (g_ret_fee g) (g_recv g + recv) (g_fee_fwd g)
-                        ((matched, paid, recv) :: g_fills g) in
-      let s1 := set_orders s (upd_order (app, pair, id) (fun _ => (o1, g1)) (orders s)) in
-      let s2 := set_surplus (set_owed s1 (fadd3 (owed s1) app pair (o_odenom o) (- paid)))
-                            (fadd3 (fadd3 (surplus s1) app pair (o_odenom o) paid) app pair (o_ddenom o) (- recv)) in
+      let g1 := fill_ghost g matched paid recv in
+      let s2 := fill_book s (app, pair, id) o g matched paid recv in
       do s3 <- (if o_open o1 =? 0 then finish_entry s2 (o1, g1) 4
-                else Ok (set_orders s2 (upd_order (app, pair, id) (fun _ => (set_status o1 3, g1)) (orders s2))));
-      ssend s3 (Escrow app pair) (User (o_owner o)) (o_ddenom o) recv
+                else Ok (mark_status s2 (app, pair, id) o1 g1 3));
+      esc_out s3 app pair (User (o_owner o)) (o_ddenom o) recv
   end.
 
 (* pool orders: the coins the pools pay enter the escrow first (first bulk send), the coins they
@@ -576,15 +608,9 @@ Definition apply_pool_flow (credit : bool) (app : Z) (pr : pair) (s : state) (f 
   let '(pid, dq, db) := f in
   let mv := fun (s : state) (d x : Z) =>
     if x <? 0 then
-      if credit then
-        do s' <- ssend s (Reserve app pid) (Escrow app (p_id pr)) d (- x);
-        Ok (set_surplus s' (fadd3 (surplus s') app (p_id pr) d (- x)))
-      else Ok s
+      if credit then esc_in s app (p_id pr) (Reserve app pid) d (- x) else Ok s
     else
-      if credit then Ok s
-      else
-        do s' <- ssend s (Escrow app (p_id pr)) (Reserve app pid) d x;
-        Ok (set_surplus s' (fadd3 (surplus s') app (p_id pr) d (- x))) in
+      if credit then Ok s else esc_out s app (p_id pr) (Reserve app pid) d x in
   do s1 <- mv s (p_quote pr) dq;
   mv s1 (p_base pr) db.
 
@@ -593,10 +619,19 @@ Definition is_depleted (ranged : bool) (rx ry ps : Z) : bool :=
 
 Definition pool_depleted (s : state) (pr : pair) (pl : pool) : bool :=
   is_depleted (pl_ranged pl) (led s (Reserve (pl_app pl) (pl_id pl)) (p_quote pr))
-              (led s (Reserve (pl_app pl) (pl_id pl)) (p_base pr)) (sup s (pool_denom (pl_app pl) (pl_id pl))).
+              (led s (Reserve (pl_app pl) (pl_id pl)) (p_base pr)) (sup s (pl_app pl) (pl_id pl)).
 
 Definition disable (pl : pool) : pool :=
   mkPool (pl_app pl) (pl_id pl) (pl_pair pl) (pl_ranged pl) true (pl_last_dep pl) (pl_last_wd pl).
+
+(* pools of the pair: a depleted pool is marked disabled *)
+Definition disable_depleted (s : state) (pr : pair) : state :=
+  set_pools s (map (fun pl => if (pl_app pl =? p_app pr) && (pl_pair pl =? p_id pr) && negb (pl_disabled pl)
+                                 && pool_depleted s pr pl then disable pl else pl) (pools s)).
+(* SetPair(pair) with the value read when the iteration over pairs started *)
+Definition set_pair_after (s : state) (pr : pair) (env : batch_env) : state :=
+  set_pairs s (ins_pair (mkPair (p_app pr) (p_id pr) (p_base pr) (p_quote pr) (p_last_order pr)
+                                (if b_matched env then Some (b_price env) else p_last_price pr) (p_batch pr + 1)) (pairs s)).
 
 Definition execute_matching (now : Z) (s : state) (pr : pair) (env : batch_env) : outcome state :=
   let app := p_app pr in
@@ -608,26 +643,19 @@ Definition execute_matching (now : Z) (s : state) (pr : pair) (env : batch_env) 
              | Some (o, g) =>
                if is_live (o_status o) then
                  if negb (o_status o =? 1) && (o_expire o <=? now) then finish_entry s (o, g) 6
-                 else if o_status o =? 1
-                      then Ok (set_orders s (upd_order k (fun _ => (set_status o 2, g)) (orders s)))
+                 else if o_status o =? 1 then Ok (mark_status s k o g 2)
                       else Ok s
                else if o_status o =? 5 then Ok s
                else Err 14                                   (* invalid order status *)
              end) keys s;
-  (* pools of the pair: a depleted pool is marked disabled *)
-  let s2 := set_pools s1 (map (fun pl => if (pl_app pl =? app) && (pl_pair pl =? p_id pr) && negb (pl_disabled pl)
-                                            && pool_depleted s1 pr pl then disable pl else pl) (pools s1)) in
+  let s2 := disable_depleted s1 pr in
   do s3 <- (if b_matched env then
               do a <- fold_m (apply_pool_flow true app pr) (b_pools env) s2;
               do b <- fold_m (fun s f => apply_fill s app (p_id pr) f) (b_fills env) a;
               do c <- fold_m (apply_pool_flow false app pr) (b_pools env) b;
-              do d <- ssend c (Escrow app (p_id pr)) (Dust app) (p_quote pr) (b_dust env);
-              Ok (set_surplus d (fadd3 (surplus d) app (p_id pr) (p_quote pr) (- b_dust env)))
+              esc_out c app (p_id pr) (Dust app) (p_quote pr) (b_dust env)
             else Ok s2);
-  (* SetPair(pair) with the value read when the iteration over pairs started *)
-  let pr' := mkPair (p_app pr) (p_id pr) (p_base pr) (p_quote pr) (p_last_order pr)
-                    (if b_matched env then Some (b_price env) else p_last_price pr) (p_batch pr + 1) in
-  Ok (set_pairs s3 (ins_pair pr' (pairs s3))).
+  Ok (set_pair_after s3 pr env).
 
 Definition no_batch (pid : Z) : batch_env := mkBatch pid false 0 [] [] 0.
 Fixpoint find_batch (pid : Z) (l : list batch_env) : batch_env :=
@@ -649,8 +677,8 @@ Definition sweep_orders (now app : Z) (s : state) : outcome state :=
 (* pools, deposits, withdrawals (keeper/pool.go); the share arithmetic is ENV                     *)
 Definition pool_pair (s : state) (pl : pool) : option pair := find_pair (pl_app pl) (pl_pair pl) (pairs s).
 
-Definition mint (s : state) (d x : Z) : state :=            (* MintCoins to the module account *)
-  set_sup (set_led s (ladd (led s) Module d x)) (fadd1 (sup s) d x).
+Definition mint (s : state) (app pool x : Z) : state :=     (* MintCoins of the pool coin to the module account *)
+  set_sup (set_led s (ladd (led s) Module (pool_denom app pool) x)) (fadd2 (sup s) app pool x).
 
 Definition create_pair (s : state) (app creator base quote : Z) : outcome state :=
   if base =? quote then Err 9 else
@@ -677,7 +705,7 @@ Definition new_pool (s : state) (P : params) (app creator : Z) (pr : pair) (rang
   do s2 <- ssend s1 (User creator) (Reserve app id) (p_quote pr) ax;
   do s3 <- ssend s2 (User creator) (FeeColl app) (pr_fee_denom P) (pr_pool_fee P);
   let pc := Z.max ps (pr_min_pc P) in
-  ssend (mint s3 (pool_denom app id) pc) Module (User creator) (pool_denom app id) pc.
+  ssend (mint s3 app id pc) Module (User creator) (pool_denom app id) pc.
 
 Definition create_pool (s : state) (app creator pair x y : Z) (amm_ok : bool) (ps : Z) : outcome state :=
   if (pair =? 0) || (x <=? 0) || (y <=? 0) || (x >? max_coin) || (y >? max_coin) then Err 9 else
@@ -728,7 +756,7 @@ Definition deposit_req (s : state) (app owner pid x y : Z) : outcome (state * de
         do s2 <- ssend s1 (User owner) GlobalEscrow (p_quote pr) x;
         let id := pl_last_dep pl + 1 in
         let pl' := mkPool (pl_app pl) (pl_id pl) (pl_pair pl) (pl_ranged pl) (pl_disabled pl) id (pl_last_wd pl) in
-        let r := mkDep app pid id owner x y 0 0 0 1 in
+        let r := mkDep app pid id owner x y (p_quote pr) (p_base pr) 0 0 0 1 in
         let s3 := set_ge_owed s2 (fadd1 (fadd1 (ge_owed s2) (p_base pr) y) (p_quote pr) x) in
         Ok (set_deps (set_pools s3 (ins_pool pl' (pools s3))) (deps s3 ++ [r]), r)
     end
@@ -749,17 +777,41 @@ Definition withdraw_req (s : state) (app owner pid pc : Z) : outcome (state * wd
     Ok (set_wds (set_pools s2 (ins_pool pl' (pools s2))) (wds s2 ++ [r]), r)
   end.
 
+Definition dkey (r : depreq) : key3 := (d_app r, d_pool r, d_id r).
+Definition wkey (r : wdreq) : key3 := (w_app r, w_pool r, w_id r).
+Fixpoint find_dep (k : key3) (l : list depreq) : option depreq :=
+  match l with [] => None | r :: t => if k3_eqb (dkey r) k then Some r else find_dep k t end.
+Fixpoint find_wd (k : key3) (l : list wdreq) : option wdreq :=
+  match l with [] => None | r :: t => if k3_eqb (wkey r) k then Some r else find_wd k t end.
 Definition dep_eqb (a b : depreq) : bool := (d_app a =? d_app b) && (d_pool a =? d_pool b) && (d_id a =? d_id b).
 Definition wd_eqb (a b : wdreq) : bool := (w_app a =? w_app b) && (w_pool a =? w_pool b) && (w_id a =? w_id b).
 Definition put_dep (s : state) (r : depreq) : state := set_deps s (map (fun x => if dep_eqb x r then r else x) (deps s)).
 Definition put_wd (s : state) (r : wdreq) : state := set_wds s (map (fun x => if wd_eqb x r then r else x) (wds s)).
 
-(* FinishDepositRequest with status Failed: everything is refunded *)
-Definition fail_dep (s : state) (pr : pair) (r : depreq) : outcome state :=
-  do s1 <- ssend s GlobalEscrow (User (d_owner r)) (p_base pr) (d_y r);
-  do s2 <- ssend s1 GlobalEscrow (User (d_owner r)) (p_quote pr) (d_x r);
-  let s3 := set_ge_owed s2 (fadd1 (fadd1 (ge_owed s2) (p_base pr) (- d_y r)) (p_quote pr) (- d_x r)) in
-  Ok (put_dep s3 (mkDep (d_app r) (d_pool r) (d_id r) (d_owner r) (d_x r) (d_y r) 0 0 0 3)).
+Definition set_dep_result (r : depreq) (ax ay pc st : Z) : depreq :=
+  mkDep (d_app r) (d_pool r) (d_id r) (d_owner r) (d_x r) (d_y r) (d_xd r) (d_yd r) ax ay pc st.
+(* FinishDepositRequest with status Failed: req.DepositCoins are refunded *)
+Definition fail_dep (s : state) (r : depreq) : outcome state :=
+  do s1 <- ssend s GlobalEscrow (User (d_owner r)) (d_yd r) (d_y r);
+  do s2 <- ssend s1 GlobalEscrow (User (d_owner r)) (d_xd r) (d_x r);
+  let s3 := set_ge_owed s2 (fadd1 (fadd1 (ge_owed s2) (d_yd r) (- d_y r)) (d_xd r) (- d_x r)) in
+  Ok (put_dep s3 (set_dep_result r 0 0 0 3)).
+Definition disable_pool (s : state) (pl : pool) : state := set_pools s (ins_pool (disable pl) (pools s)).
+
+(* the successful tail of ExecuteDepositRequest: mint, accepted coins (in the PAIR's denoms) to the
+   reserve, pool coin to the depositor, req.DepositCoins.Sub(AcceptedCoins) refunded.  ValidateMsgDeposit
+   pins the deposit coin denoms to the pair's, and neither pool.PairId nor a pair's denoms ever
+   change; if they differed, Coins.Sub would panic on the accepted coin missing from the deposit *)
+Definition do_deposit (s : state) (r : depreq) (pr : pair) (ax ay pc : Z) : outcome state :=
+  if negb ((d_xd r =? p_quote pr) && (d_yd r =? p_base pr)) then Panic else
+  let s0 := mint s (d_app r) (d_pool r) pc in
+  do s1 <- ssend s0 GlobalEscrow (Reserve (d_app r) (d_pool r)) (p_base pr) ay;
+  do s2 <- ssend s1 GlobalEscrow (Reserve (d_app r) (d_pool r)) (p_quote pr) ax;
+  do s3 <- ssend s2 Module (User (d_owner r)) (pool_denom (d_app r) (d_pool r)) pc;
+  do s4 <- ssend s3 GlobalEscrow (User (d_owner r)) (d_yd r) (d_y r - ay);
+  do s5 <- ssend s4 GlobalEscrow (User (d_owner r)) (d_xd r) (d_x r - ax);
+  let s6 := set_ge_owed s5 (fadd1 (fadd1 (ge_owed s5) (d_yd r) (- d_y r)) (d_xd r) (- d_x r)) in
+  Ok (put_dep s6 (set_dep_result r ax ay pc 2)).
 
 (* ExecuteDepositRequest (pool.go:500-560); (ax, ay, pc) = amm.Deposit's result (ENV) *)
 Definition exec_deposit (s : state) (r : depreq) (ax ay pc : Z) : outcome state :=
@@ -769,20 +821,11 @@ Definition exec_deposit (s : state) (r : depreq) (ax ay pc : Z) : outcome state 
     match pool_pair s pl with
     | None => Panic
     | Some pr =>
-      if pl_disabled pl then fail_dep s pr r
-      else if pool_depleted s pr pl then fail_dep (set_pools s (ins_pool (disable pl) (pools s))) pr r
-      else if pc =? 0 then fail_dep s pr r
+      if pl_disabled pl then fail_dep s r
+      else if pool_depleted s pr pl then fail_dep (disable_pool s pl) r
+      else if pc =? 0 then fail_dep s r
       else if (pc <? 0) || (ax <? 0) || (ay <? 0) || (d_x r - ax <? 0) || (d_y r - ay <? 0) then Panic
-      else
-        let pd := pool_denom (d_app r) (d_pool r) in
-        let s0 := mint s pd pc in
-        do s1 <- ssend s0 GlobalEscrow (Reserve (d_app r) (d_pool r)) (p_base pr) ay;
-        do s2 <- ssend s1 GlobalEscrow (Reserve (d_app r) (d_pool r)) (p_quote pr) ax;
-        do s3 <- ssend s2 Module (User (d_owner r)) pd pc;
-        do s4 <- ssend s3 GlobalEscrow (User (d_owner r)) (p_base pr) (d_y r - ay);
-        do s5 <- ssend s4 GlobalEscrow (User (d_owner r)) (p_quote pr) (d_x r - ax);
-        let s6 := set_ge_owed s5 (fadd1 (fadd1 (ge_owed s5) (p_base pr) (- d_y r)) (p_quote pr) (- d_x r)) in
-        Ok (put_dep s6 (mkDep (d_app r) (d_pool r) (d_id r) (d_owner r) (d_x r) (d_y r) ax ay pc 2))
+      else do_deposit s r pr ax ay pc
     end
   end.
 
@@ -790,6 +833,20 @@ Definition fail_wd (s : state) (r : wdreq) : outcome state :=
   do s1 <- ssend s GlobalEscrow (User (w_owner r)) (pool_denom (w_app r) (w_pool r)) (w_pc r);
   let s2 := set_ge_owed s1 (fadd1 (ge_owed s1) (pool_denom (w_app r) (w_pool r)) (- w_pc r)) in
   Ok (put_wd s2 (mkWd (w_app r) (w_pool r) (w_id r) (w_owner r) (w_pc r) 0 0 3)).
+
+(* the successful tail of ExecuteWithdrawRequest *)
+Definition do_withdraw (s : state) (r : wdreq) (pl : pool) (pr : pair) (x y : Z) : outcome state :=
+  let pd := pool_denom (w_app r) (w_pool r) in
+  let ps := sup s (w_app r) (w_pool r) in
+  do s1 <- ssend s GlobalEscrow Module pd (w_pc r);
+  do s2 <- ssend s1 (Reserve (w_app r) (w_pool r)) (User (w_owner r)) (p_base pr) y;
+  do s3 <- ssend s2 (Reserve (w_app r) (w_pool r)) (User (w_owner r)) (p_quote pr) x;
+  if led s3 Module pd <? w_pc r then Err 5 else
+  if sup s3 (w_app r) (w_pool r) <? w_pc r then Panic else      (* bank BurnCoins: supply.Sub(amount) panics when negative *)
+  let s4 := set_sup (set_led s3 (ladd (led s3) Module pd (- w_pc r))) (fadd2 (sup s3) (w_app r) (w_pool r) (- w_pc r)) in   (* BurnCoins *)
+  let s5 := if w_pc r =? ps then disable_pool s4 pl else s4 in
+  let s6 := set_ge_owed s5 (fadd1 (ge_owed s5) pd (- w_pc r)) in
+  Ok (put_wd s6 (mkWd (w_app r) (w_pool r) (w_id r) (w_owner r) (w_pc r) x y 2)).
 
 (* ExecuteWithdrawRequest (pool.go:597-660); (x, y) = amm.Withdraw's result (ENV) *)
 Definition exec_withdraw (s : state) (r : wdreq) (x y : Z) : outcome state :=
@@ -801,19 +858,9 @@ Definition exec_withdraw (s : state) (r : wdreq) (x y : Z) : outcome state :=
     | None => Panic
     | Some pr =>
       if pl_disabled pl then fail_wd s r
-      else if pool_depleted s pr pl then fail_wd (set_pools s (ins_pool (disable pl) (pools s))) r
+      else if pool_depleted s pr pl then fail_wd (disable_pool s pl) r
       else if (x =? 0) && (y =? 0) then fail_wd s r
-      else
-        let pd := pool_denom (w_app r) (w_pool r) in
-        let ps := sup s pd in
-        do s1 <- ssend s GlobalEscrow Module pd (w_pc r);
-        do s2 <- ssend s1 (Reserve (w_app r) (w_pool r)) (User (w_owner r)) (p_base pr) y;
-        do s3 <- ssend s2 (Reserve (w_app r) (w_pool r)) (User (w_owner r)) (p_quote pr) x;
-        if led s3 Module pd <? w_pc r then Err 5 else
-        let s4 := set_sup (set_led s3 (ladd (led s3) Module pd (- w_pc r))) (fadd1 (sup s3) pd (- w_pc r)) in   (* BurnCoins *)
-        let s5 := if w_pc r =? ps then set_pools s4 (ins_pool (disable pl) (pools s4)) else s4 in
-        let s6 := set_ge_owed s5 (fadd1 (ge_owed s5) pd (- w_pc r)) in
-        Ok (put_wd s6 (mkWd (w_app r) (w_pool r) (w_id r) (w_owner r) (w_pc r) x y 2))
+      else do_withdraw s r pl pr x y
     end
   end.
 
@@ -933,15 +980,25 @@ Fixpoint find_wd_env (pid id : Z) (l : list (Z * Z * Z * Z)) : Z * Z :=
 (* ExecuteRequests + ProcessQueuedFarmers for one app (inside ApplyFuncIfNoError) *)
 Definition end_app (now : Z) (s : state) (env : app_env) : outcome state :=
   let app := e_app env in
-  do s1 <- fold_m (fun s pr => execute_matching now s pr (find_batch (p_id pr) (e_batches env)))
-                  (filter (fun p => p_app p =? app) (pairs s)) s;
+  do s1 <- fold_m (fun s k => match find_pair (fst k) (snd k) (pairs s) with
+                              | None => Ok s
+                              | Some pr => execute_matching now s pr (find_batch (p_id pr) (e_batches env))
+                              end)
+                  (map pkey (filter (fun p => p_app p =? app) (pairs s))) s;
   do s2 <- sweep_orders now app s1;
-  do s3 <- fold_m (fun s r => if d_status r =? 1 then
-                                let '(ax, ay, pc) := find_dep_env (d_pool r) (d_id r) (e_deps env) in exec_deposit s r ax ay pc
-                              else Ok s) (filter (fun r => d_app r =? app) (deps s2)) s2;
-  do s4 <- fold_m (fun s r => if w_status r =? 1 then
-                                let '(x, y) := find_wd_env (w_pool r) (w_id r) (e_wds env) in exec_withdraw s r x y
-                              else Ok s) (filter (fun r => w_app r =? app) (wds s3)) s3;
+  (* the store iterators hand each callback the CURRENT value stored under the key *)
+  do s3 <- fold_m (fun s k => match find_dep k (deps s) with
+                              | None => Ok s
+                              | Some r => if d_status r =? 1 then
+                                            let '(ax, ay, pc) := find_dep_env (d_pool r) (d_id r) (e_deps env) in exec_deposit s r ax ay pc
+                                          else Ok s
+                              end) (map dkey (filter (fun r => d_app r =? app) (deps s2))) s2;
+  do s4 <- fold_m (fun s k => match find_wd k (wds s) with
+                              | None => Ok s
+                              | Some r => if w_status r =? 1 then
+                                            let '(x, y) := find_wd_env (w_pool r) (w_id r) (e_wds env) in exec_withdraw s r x y
+                                          else Ok s
+                              end) (map wkey (filter (fun r => w_app r =? app) (wds s3))) s3;
   Ok (process_queued now app s4).
 
 Fixpoint find_app_env (app : Z) (l : list app_env) : app_env :=
@@ -1070,7 +1127,6 @@ Definition exec_fee (rate : Z) (o : order) : Z :=
 (* C07 MM clause, on the observation after a successful CancelMM / MM replace: every order that the
    owner's index listed before the call is no longer live *)
 Definition holds_C07_mm (statuses_after : list Z) : bool := forallb (fun st => negb (is_live st)) statuses_after.
-Definition kf_C07_1 (app pair : Z) : bool := negb (app =? pair).
 Definition holds_C07_feecoll (rate : Z) (os : list order) (d balance : Z) : bool :=
   balance =? zsum (map (fun o => if o_odenom o =? d then exec_fee rate o else 0) os).
 
